@@ -1,6 +1,7 @@
 import copy
 import keyword
 import re
+import unicodedata
 from typing import Dict, Iterable, List, Tuple, Type, Union
 
 import inflection
@@ -308,7 +309,13 @@ def sort_kwargs(kwargs: dict, ordering: Iterable[Iterable[str]]) -> dict:
 def prepare_label(s: str, convert_unicode: bool, to_snake_case: bool) -> str:
     if convert_unicode:
         s = unidecode(s)
+    else:
+        # Python normalizes identifiers (NFKC): label should be the name that field or class really gets ("µm" is "μm")
+        s = unicodedata.normalize("NFKC", s)
     s = re.sub(r"\W", "", s)
+    if not convert_unicode:
+        # Word characters that can not be a part of identifier (i.e. "²" or "৴")
+        s = "".join(ch for ch in s if ("a" + ch).isidentifier())
     if not ('a' <= s[0].lower() <= 'z'):
         if '0' <= s[0] <= '9':
             s = ones[int(s[0])] + "_" + s[1:]
